@@ -306,6 +306,8 @@ def run(chk: Check):
             smp.max_deduplication_passes = 0
             pts, losses = gen_history(rng, sp, rng.randint(6, 12))
             cls = type(smp)
+            import copy as _copy
+            unused_twin = _copy.deepcopy(smp)          # the same sampler before it has seen any history
             of, op = cls.fit, cls.predict
             log = {}
 
@@ -349,6 +351,32 @@ def run(chk: Check):
                     chk.fail(f"{name}: a returned candidate is not a row of the pool", case)
                 elif sorted(sel) != sorted(preds.tolist())[:len(pre)]:
                     chk.fail(f"{name}: returned candidates do not have the lowest surrogate predictions", case)
+            # the same object asked again: the SAME points with OTHER losses (the history re-scored, e.g. by another loss function), or another history
+            # altogether.  What it returns is what a sampler that has never seen the first history returns from the same generator state: it trains on
+            # exactly the history it is given now
+            variant = rng.choice(["same_points_other_losses", "same_points_other_losses", "other_history"])
+            if variant == "same_points_other_losses":
+                pts_b, losses_b = pts, np.ascontiguousarray(losses[::-1]) * rng.choice([1.0, -1.0, 3.0])
+                if losses_b.tobytes() == losses.tobytes():
+                    losses_b = losses_b + np.arange(len(losses_b))
+            else:
+                pts_b, losses_b = gen_history(rng, sp, rng.randint(6, 12))
+            s2 = rng.randrange(10 ** 6)
+            outs_b = []
+            for obj in (smp, unused_twin):
+                obj.random_state = s2
+                try:
+                    with quiet(), warnings.catch_warnings():
+                        warnings.simplefilter("ignore")
+                        outs_b.append(np.asarray(obj.sample(sp, pts_b, losses_b)))
+                except Exception as e:  # noqa: BLE001
+                    outs_b.append("raised " + type(e).__name__)
+            chk.count(f"real_surrogate_second_call:{variant}")
+            a_, b_ = outs_b
+            if isinstance(a_, str) != isinstance(b_, str) or (isinstance(a_, str) and a_ != b_) or (not isinstance(a_, str) and (a_.shape != b_.shape or a_.tobytes() != b_.tobytes())):
+                chk.fail(f"{name}: asked a second time ({variant}: {len(pts_b)} points) the used object returns {a_.tolist() if not isinstance(a_, str) else a_}, a sampler that never saw the "
+                         f"first history returns {b_.tolist() if not isinstance(b_, str) else b_} from the same generator state: it does not train on exactly the given history",
+                         {"case": {"kind": "real_surrogate_second_call", "sampler": name, "variant": variant, "points": pts.tolist(), "losses_first": losses.tolist(), "points_second": np.asarray(pts_b).tolist(), "losses_second": np.asarray(losses_b).tolist()}})
     # ---------------- (c) best-batch
     n_c = 60 if chk.tier == "quick" else 800
     bb_reuse = {}
